@@ -299,6 +299,29 @@ def step(case, rng, mole, t: Table, ops_log):
             bare = _M(mo.pos, mo.rotator)
             ops_log[-1] = f"{op}(featureless)"
             n0 = len(mole)
+            if op == "concat":
+                # a feature-less table in any position: rejected, or every row keeps its own features
+                order_ = [("bare", bare), ("t", mole), ("o", mo)]
+                order_ = [order_[i] for i in rng.permutation(3)][: int(rng.integers(2, 4))]
+                if not any(k == "bare" for k, _ in order_):
+                    order_.insert(int(rng.integers(0, len(order_) + 1)), ("bare", bare))
+                try:
+                    res_any = _M.concat([m_ for _, m_ in order_], nullable=True)
+                except Exception:
+                    res_any = None
+                if res_any is not None:
+                    off, okc = 0, len(res_any) == sum(len(m_) for _, m_ in order_)
+                    fu = res_any.features["uid"].to_list() if "uid" in res_any.features.columns else [None] * len(res_any)
+                    okc = okc and len(fu) == len(res_any)
+                    for k, m_ in order_:
+                        if not okc:
+                            break
+                        seg = fu[off:off + len(m_)]
+                        want_seg = ([None] * len(m_) if k == "bare" else m_.features["uid"].to_list()) if len(m_) else []
+                        okc = seg == want_seg and np.array_equal(res_any.pos[off:off + len(m_)], m_.pos)
+                        off += len(m_)
+                    case.check(okc, "concat with a featureless table (any position) misaligned features and positions",
+                               None, order=[k for k, _ in order_], uids=fu[:12])
             try:
                 if op == "concat":
                     res = _M.concat([mole, bare])
@@ -353,6 +376,19 @@ def step(case, rng, mole, t: Table, ops_log):
         ret = m.append(mo)
         case.check(ret is m, "append must return the same instance")
         compare(case, m, t2, "append")
+        # tables that merely share history with the appended one (its source, the appended table, a table built
+        # from the same feature frame) keep their own rows
+        compare(case, mole, t, "source table after append() on its copy")
+        compare(case, mo, other, "appended table after append()")
+        acc = Molecules.empty()
+        parts = [mole, mo, mole.copy()]
+        try:
+            for part in parts:
+                acc.append(part)
+        except ValueError:
+            pass    # column sets that cannot be appended are rejected; the parts must be untouched all the same
+        compare(case, mole, t, "first part after accumulating with empty().append(part)")
+        compare(case, mo, other, "second part after accumulating with empty().append(part)")
         # every view of the appended object must show the appended rows
         if len(t2.rows):
             compare(case, m.head(len(t2.rows) + 3), t2, "head() after append")
